@@ -534,6 +534,8 @@ template<class T> constexpr T spice(T*t) {return *t;}
 
 #define rBOILS_BEGIN rBOIL_BEGIN \
             const char *mm = msg; \
+            if(const char *hash_ = strchr(data.port->name, '#')) \
+                for(const char *pn_ = data.port->name; pn_ != hash_ && *mm; ++pn_) ++mm; \
             while(*mm && !isdigit(*mm)) ++mm; \
             unsigned idx = atoi(mm);
 
